@@ -209,6 +209,23 @@ theorem retry_only_after_retriable (cfg : Cfg) (b k : Nat) (code : Code) (k' : N
       exact ⟨hc, hr.1, rfl, hr.2⟩
     · cases h
 
+/-- **detach_once** — a batch is detached (and therefore handed to the queue, produced and completed) at most once: `detach`
+is enabled only for the batch that is still attached and not yet detached, and a timer detaches only its own batch
+after its own timer fired (`B.TimerFire … false` detaches nothing: the batch is no longer `curr`). -/
+theorem detach_once (cfg : Cfg) (s s' : State) (pw b : Nat) (why : Why) (size : Nat)
+    (hs : step cfg s (.detach pw b why size) = some s') :
+    ∃ P B, s.pws pw = some P ∧ s.batches b = some B ∧ P.curr = some b ∧ B.detached = none ∧
+      (why = .timer → B.timerFired = true) ∧
+      ∃ B', s'.batches b = some B' ∧ B'.detached = some why := by
+  simp only [step, stepDetach] at hs
+  repeat' split at hs
+  all_goals (first | (cases hs; done) | skip)
+  rename_i _ P hP _ B hB hg
+  obtain ⟨hc, -, hd, hw⟩ := hg
+  cases hs
+  refine ⟨P, B, hP, hB, hc, hd, ?_, { B with detached := some why }, by simp, rfl⟩
+  intro h; subst h; simpa [whyOk] using hw
+
 /-- **completion_before_done** — `complete` (closing batch.done, which lets WriteMessages return) is enabled only
 after the Completion callback ran when one is configured, and with the same error. -/
 theorem completion_before_done (cfg : Cfg) (s s' : State) (pw b : Nat) (code : Code)
